@@ -25,6 +25,7 @@ RULES = {
     "R2-seed-provenance": "default_rng / jax.random.key / PRNGKey / nnx.Rngs / env.reset(seed=) / action_space.seed are always given an argument made of parameters, literals and arithmetic only",
     "R3-unordered-iteration": "sets that are iterated / listed hold integers by construction (rng.choice(n), range, validated task ids, set algebra of those)",
     "R4-time-confinement": "time.* / datetime.* are called only in rl_blox/logging/",
+    "R5-uninitialised-storage": "no method reads a slot of a numpy.empty storage ahead of writing it (same index, no fill-state guard): on the first pass through the ring that slot was never written",
 }
 
 RNG_CTORS = {"numpy.random.default_rng", "jax.random.key", "jax.random.PRNGKey", "flax.nnx.Rngs"}
@@ -148,6 +149,17 @@ def run(ck, repo: Repo, tier: str):
                 if arg is None or (isinstance(arg, ast.Constant) and arg.value is None):
                     ck.ob("R2-seed-provenance", q, f"unseeded:{d or dotted(f)}", False, short(n, 70), "RNG created / seeded without an argument: it draws fresh OS entropy, so two runs differ", where)
                     continue
+                # a seed parameter that defaults to None is a seed only where the constructing code passes one
+                if isinstance(arg, ast.Name) and arg.id in params and _default_is_none(fn, arg.id):
+                    for mi2, site, sq in _construction_sites(repo, q):
+                        if any(isinstance(a_, ast.Starred) for a_ in site.args) or any(k.arg is None for k in site.keywords):
+                            continue   # forwarded argument packs: the binding is the caller's
+                        from ..repo import bind_call
+                        b_ = bind_call(fn, site, skip_self=True)
+                        v_ = b_.get(arg.id)
+                        ok_ = v_ is not None and not (isinstance(v_, ast.Constant) and v_.value is None)
+                        ck.ob("R2-seed-provenance", sq, f"constructs:{q.rsplit('.', 2)[-2] if q.endswith('__init__') else fn.name}:{arg.id}", ok_, f"`{short(site, 70)}`",
+                              "" if ok_ else f"`{arg.id}` defaults to None and this call does not pass it: `{short(n, 50)}` then draws fresh OS entropy, so two runs with the same seed differ", loc(mi2, site))
                 calls = [c for c in ast.walk(arg) if isinstance(c, ast.Call) and dotted(c.func) not in ("int", "float", "abs", "hash_seed")]
                 names = {x.id for x in ast.walk(arg) if isinstance(x, ast.Name)}
                 ok = not calls
@@ -158,8 +170,16 @@ def run(ck, repo: Repo, tier: str):
             it = None
             if isinstance(n, (ast.For, ast.comprehension)):
                 it = n.iter
-            elif isinstance(n, ast.Call) and isinstance(n.func, ast.Name) and n.func.id in ("list", "tuple", "sorted", "enumerate") and n.args:
+            elif isinstance(n, ast.Call) and isinstance(n.func, ast.Name) and n.func.id in ("list", "tuple", "sorted", "enumerate", "iter") and n.args:
                 it = n.args[0] if n.func.id != "sorted" else None
+            elif isinstance(n, ast.Call) and isinstance(n.func, ast.Name) and n.func.id in ("zip", "map") and n.args:
+                # every zipped / mapped iterable is traversed in its own order: the pairing depends on it
+                for it_ in (n.args if n.func.id == "zip" else n.args[1:]):
+                    _one_iteration(ck, repo, fn, mi, q, n, it_, undecided_sets)
+                    n_sets += _set_kind(repo, fn, mi, it_) is not None
+                continue
+            elif isinstance(n, ast.Starred) and isinstance(n.ctx, ast.Load):
+                it = n.value
             if it is None:
                 continue
             kind = _set_kind(repo, fn, mi, it)
@@ -180,10 +200,139 @@ def run(ck, repo: Repo, tier: str):
     ck.floor("set-iterations", n_sets, 3)
     ck.floor("action-space-seed-and-sample-sites", n_spaces, 15)
     ck.ob("R1-forbidden-sources", "rl_blox", "closure-scanned", True, f"{n_calls} call expressions in {len(closure)} functions scanned, no forbidden source", "", "rl_blox/")
+    ck.guard(_uninitialised_reads, ck, repo, funcs)
     # positive control: the rule must fire on a known-bad snippet (rules whose expected count is zero)
     bad_src = "import numpy as np\nimport random, time\n\ndef train_x(seed):\n    a = np.random.rand()\n    b = random.random()\n    r = np.random.default_rng()\n    t = time.time()\n    for k in {'a', 'b'}:\n        pass\n"
     hits = _selfcheck(bad_src)
     ck.ob("R1-forbidden-sources", "selftest", "positive-control", hits == {"np.random.rand", "random.random", "default_rng()", "time.time", "set-of-str"}, f"control snippet flagged: {sorted(hits)}", "" if len(hits) == 5 else "the scanner no longer recognises the forbidden patterns", "rlxcheck/props/c09.py")
+
+
+def _uninitialised_reads(ck, repo, funcs):
+    """R5: storage allocated with numpy.empty holds whatever the allocator returns until a slot is written.  A method that reads the
+    slot it is about to overwrite (same index expression, no write to the index in between) reads such memory on the first pass through
+    the ring, unless the read is guarded by the fill state."""
+    from ..nf import NF, Scope
+    nf = NF(repo, inline_depth=1, inline_calls=False)
+    n_alloc = n_meth = 0
+    by_cls = {}
+    for q, (fn, mi) in funcs.items():
+        p_ = getattr(fn, "_parent", None)
+        if isinstance(p_, ast.ClassDef) and "<locals>" not in q:
+            by_cls.setdefault(q.rsplit(".", 1)[0], []).append((q, fn, mi))
+    for cq, meths in sorted(by_cls.items()):
+        # two-level storages self.X[k] = np.empty(<capacity> ...)
+        stor = set()
+        for q, fn, mi in meths:
+            for n in ast.walk(fn):
+                if isinstance(n, ast.Assign) and isinstance(n.targets[0], ast.Subscript) and isinstance(n.value, ast.Call) and repo.resolve_expr(mi, n.value.func) == "numpy.empty":
+                    a0 = n.value.args[0] if n.value.args else None
+                    if isinstance(a0, ast.Constant) and a0.value == 0:
+                        continue
+                    b = dotted(n.targets[0].value)
+                    if b and b.startswith("self."):
+                        stor.add(b)
+        if not stor:
+            continue
+        n_alloc += len(stor)
+        for q, fn, mi in meths:
+            cfg = nf.cfg_of(fn)
+            reads, stores, idx_writes = [], [], {}
+            for nd in cfg.nodes:
+                s_ = nd.ast
+                if s_ is None or nd.kind not in ("stmt", "test", "for"):
+                    continue
+                tgt = None
+                if nd.kind == "stmt" and isinstance(s_, (ast.Assign, ast.AugAssign)):
+                    tgt = s_.targets[0] if isinstance(s_, ast.Assign) else s_.target
+                    if isinstance(tgt, ast.Subscript) and isinstance(tgt.value, ast.Subscript) and dotted(tgt.value.value) in stor and isinstance(s_, ast.Assign):
+                        stores.append((nd, tgt))
+                    if dotted(tgt) and dotted(tgt).startswith("self."):
+                        idx_writes.setdefault(dotted(tgt), []).append(nd.id)
+                roots = [s_.value] if nd.kind == "stmt" and isinstance(s_, (ast.Assign, ast.AugAssign)) else [s_.test] if nd.kind == "test" and hasattr(s_, "test") else [s_.iter] if nd.kind == "for" else [s_] if nd.kind == "stmt" and isinstance(s_, (ast.Expr, ast.Return)) else []
+                if nd.kind == "stmt" and isinstance(s_, ast.AugAssign) and isinstance(tgt, ast.Subscript):
+                    roots.append(tgt)
+                for r_ in roots:
+                    for x in ast.walk(r_):
+                        if isinstance(x, ast.Subscript) and isinstance(x.value, ast.Subscript) and dotted(x.value.value) in stor and not isinstance(x.ctx, ast.Store) or (x is tgt and isinstance(s_, ast.AugAssign) and isinstance(x, ast.Subscript) and isinstance(x.value, ast.Subscript) and dotted(x.value.value) in stor):
+                            reads.append((nd, x))
+            if not stores:
+                continue
+            n_meth += 1
+            sc = Scope(cfg, mi, {}, q)
+            for nd, x in reads:
+                ri = nf.poly(x.slice, sc, nd.id).canon()
+                for sn, t in stores:
+                    if sn.id == nd.id:
+                        continue
+                    si = nf.poly(t.slice, sc, sn.id).canon()
+                    if ri != si or dotted(x.value.value) != dotted(t.value.value):
+                        continue
+                    if "self." not in ri:
+                        continue   # a slot chosen by the caller: decided where the helper is expanded into a method that owns the position
+                    avoid = set()
+                    for a_, ids in idx_writes.items():
+                        if a_ in ri:
+                            avoid |= set(ids)
+                    if nd.id in avoid or cfg.paths_avoiding(nd.id, sn.id, avoid) is None:
+                        continue
+                    # is the read guarded by the fill state?
+                    guarded = False
+                    for bid, lab in cfg.control_deps(nd.id):
+                        b_ = cfg.nodes[bid]
+                        t_ = getattr(b_.ast, "test", None)
+                        if t_ is not None and "self." in nf.poly(t_, sc, bid).canon():
+                            guarded = True
+                    if guarded:
+                        ck.incomplete.append(f"{q}: `{short(x, 50)}` reads the slot that is overwritten next under a condition on the object's state - whether that excludes never-written slots is not decided")
+                        continue
+                    ck.ob("R5-uninitialised-storage", q, f"reads-slot-before-first-write:{short(x, 40)}", False, f"`{short(nd.ast, 80)}` then `{short(sn.ast, 60)}`",
+                          f"`{dotted(x.value.value)}[...]` is allocated with numpy.empty and slot `{ri}` is read before this method writes it: until the ring has wrapped the slot was never written, so the value is whatever the allocator returned - results differ from run to run", loc(mi, x))
+                    break
+    ck.floor("numpy-empty-storages", n_alloc, 2)
+    ck.ob("R5-uninitialised-storage", "rl_blox", "storage-methods-scanned", True, f"{n_meth} methods that write numpy.empty storages of {n_alloc} storages scanned: none reads a slot ahead of its first write", "", "rl_blox/blox/replay_buffer.py")
+
+
+def _default_is_none(fn, name):
+    a = fn.args
+    pos = a.posonlyargs + a.args
+    for p_, d_ in zip(pos[len(pos) - len(a.defaults):], a.defaults):
+        if p_.arg == name:
+            return isinstance(d_, ast.Constant) and d_.value is None
+    for p_, d_ in zip(a.kwonlyargs, a.kw_defaults):
+        if p_.arg == name:
+            return isinstance(d_, ast.Constant) and d_.value is None
+    return False
+
+
+def _construction_sites(repo, q):
+    """Calls inside rl_blox of the function ``q`` (of the class, when q is its __init__)."""
+    target = q[: -len(".__init__")] if q.endswith(".__init__") else q
+    out = []
+    for q2, fn2, mi2 in repo.all_functions():
+        if "<locals>" in q2:
+            continue
+        for n in ast.walk(fn2):
+            if isinstance(n, ast.Call) and isinstance(n.func, (ast.Name, ast.Attribute)):
+                try:
+                    r = repo.resolve_expr(mi2, n.func)
+                except Exception:
+                    r = None
+                if r == target:
+                    out.append((mi2, n, q2))
+    return out
+
+
+def _one_iteration(ck, repo, fn, mi, q, n, it, undecided_sets):
+    kind = _set_kind(repo, fn, mi, it)
+    if kind is None:
+        return
+    if kind == "unknown":
+        undecided_sets.append(f"{q}: cannot tell what the set `{short(it, 40)}` holds")
+        return
+    ok = kind == "int"
+    ck.ob("R3-unordered-iteration", q, f"iterates:{short(it, 40)}", ok, f"`{short(n, 70)}` over a set of {kind}",
+          "" if ok else ("iteration order of a set of strings depends on hash randomisation: results differ between processes" if kind == "str" else
+                         "iteration order of a set of objects hashed by identity depends on memory addresses: the same random index selects different members from run to run"), loc(mi, it))
 
 
 def _set_kind(repo, fn, mi, it, _seen=None):
@@ -234,9 +383,24 @@ def _set_kind_(repo, fn, mi, it, _seen):
                 k = _set_kind(repo, fn, mi, v, _seen) if v.id != name else None
                 if k:
                     kinds.append(k)
+    if not kinds and isinstance(e, ast.Name) and e.id not in param_names(fn):
+        # a module-level constant
+        for n in mi.tree.body:
+            v = n.value if isinstance(n, (ast.Assign, ast.AnnAssign)) else None
+            tg = n.targets if isinstance(n, ast.Assign) else [n.target] if isinstance(n, ast.AnnAssign) else []
+            if v is not None and any(dotted(t) == name for t in tg):
+                if isinstance(v, ast.Set):
+                    kinds.append(_elem_kind(v.elts))
+                elif isinstance(v, ast.SetComp):
+                    kinds.append(_elem_kind([v.elt]))
+                elif isinstance(v, ast.Call) and isinstance(v.func, ast.Name) and v.func.id in ("set", "frozenset"):
+                    kinds.append(_ctor_kind(v))
+        if kinds:
+            return "int" if all(k == "int" for k in kinds) else "str" if "str" in kinds else "unknown"
     if not kinds:
         # function parameter that receives a set at the call sites of this module (smt_stage2(unsolvable_pool))
         if isinstance(e, ast.Name) and e.id in param_names(fn):
+            site_kinds = []
             for n in ast.walk(mi.tree):
                 if isinstance(n, ast.Call) and isinstance(n.func, ast.Name) and n.func.id == fn.name:
                     from ..repo import bind_call
@@ -256,8 +420,11 @@ def _set_kind_(repo, fn, mi, it, _seen):
                                         idx = [dotted(t) for t in m.targets[0].elts].index(a.id)
                                         for ret in ast.walk(cf):
                                             if isinstance(ret, ast.Return) and isinstance(ret.value, ast.Tuple) and idx < len(ret.value.elts):
-                                                return _set_kind(repo, cf, mi, ret.value.elts[idx], _seen)
-                        return _set_kind(repo, caller, mi, a, _seen)
+                                                site_kinds.append(_set_kind(repo, cf, mi, ret.value.elts[idx], _seen))
+                        site_kinds.append(_set_kind(repo, caller, mi, a, _seen))
+            site_kinds = [k for k in site_kinds if k is not None]
+            if site_kinds:
+                return "str" if "str" in site_kinds else "object" if "object" in site_kinds else "int" if all(k == "int" for k in site_kinds) else "unknown"
         return None
     if all(k == "int" for k in kinds):
         # additions must be ints as well
@@ -406,9 +573,13 @@ MUTANTS = [
     {"id": "c09-set-of-names", "file": "rl_blox/blox/replay_buffer.py", "rule": "R3", "edits": [("        self.active_buffers = set()", "        self.active_buffers = set()\n        self.active_names = {\"a\", \"b\"}"), ("        self.sampled_task_idx = rng.choice(list(self.active_buffers), size=1)[0]", "        self.sampled_task_idx = rng.choice(list(self.active_buffers), size=1)[0]\n        _ = list(self.active_names)")]},
     {"id": "c09-rngs-unseeded", "file": _A + "td3.py", "rule": "R2", "nth": 0, "find": "        nnx.Rngs(seed),", "replace": "        nnx.Rngs(),"},
     {"id": "c09-reset-seed-none", "file": _A + "dqn.py", "rule": "R2", "find": "    obs, _ = env.reset(seed=seed)", "replace": "    obs, _ = env.reset(seed=None)"},
+    {"id": "c09-read-evicted-slot", "file": "rl_blox/blox/replay_buffer.py", "rule": "R5", "nth": 0, "find": "        for k, v in sample.items():\n            self.buffer[k][self.insert_idx] = v\n        self.insert_idx", "replace": "        self.evicted_ = {k: np.array(self.buffer[k][self.insert_idx]) for k in sample}\n        for k, v in sample.items():\n            self.buffer[k][self.insert_idx] = v\n        self.insert_idx"},
+    {"id": "c09-zip-name-set", "file": _A + "sac.py", "rule": "R3", "edits": [("    while step < total_timesteps:\n", "    while step < total_timesteps:\n        key, *sub_ = jax.random.split(key, 3)\n        named_ = dict(zip({\"action\", \"critic\"}, sub_))\n")]},
     {"id": "c09-uuid", "file": "rl_blox/blox/mapb.py", "rule": "R1", "edits": [("import numpy as np", "import uuid\n\nimport numpy as np"), ("            arm_idx = len(self.rewards) % self.n_arms\n", "            arm_idx = (len(self.rewards) + uuid.uuid4().int * 0) % self.n_arms\n")]},
 ]
 BENIGN = [
+    {"id": "c09-b-read-after-store", "file": "rl_blox/blox/replay_buffer.py", "nth": 0, "find": "        for k, v in sample.items():\n            self.buffer[k][self.insert_idx] = v\n        self.insert_idx", "replace": "        for k, v in sample.items():\n            self.buffer[k][self.insert_idx] = v\n        self.last_added_ = {k: np.array(self.buffer[k][self.insert_idx]) for k in sample}\n        self.insert_idx"},
+    {"id": "c09-b-zip-name-tuple", "file": _A + "sac.py", "edits": [("    while step < total_timesteps:\n", "    while step < total_timesteps:\n        key, *sub_ = jax.random.split(key, 3)\n        named_ = dict(zip((\"action\", \"critic\"), sub_))\n")]},
     {"id": "c09-b-seed-arith", "file": _A + "td3.py", "find": "    rng = np.random.default_rng(seed)", "replace": "    rng = np.random.default_rng(seed + 17)"},
     {"id": "c09-b-key-literal", "file": _A + "pets.py", "find": "        key=jax.random.key(seed),", "replace": "        key=jax.random.key(2 * seed + 1),"},
 ]
